@@ -109,7 +109,7 @@ def check_C03(ctx):
                        "distinct_nontrivial = programs that have a meaning (not rejected by the spec as ill-formed).")
     ctx.cov["trusted_base"] = ["harness renderer (asmgen.go)", "harness/enc.go tables", "TLC", "Json module"]
     spec_expr_model(ctx)
-    shards, st = gen_asm(ctx, "asm", ["-shards", 16 if ctx.quick else 64, "-n", 3000 if ctx.quick else 60000, "-variants", 4 if ctx.quick else 8], "c03")
+    shards, st = gen_asm(ctx, "asm", ["-shards", 16 if ctx.quick else 128, "-n", 3000 if ctx.quick else 200000, "-variants", 4 if ctx.quick else 8], "c03")
     rej, nom = validate_asm(ctx, shards, "C03")
     ctx.binding_selftest("AsmTrace", shards, "C03")
     total = st["programs"] + st["table_cases"]
@@ -129,7 +129,7 @@ def check_C07(ctx):
                        "division by zero / failed assert / entry point out of range. distinct_nontrivial = programs with a meaning + programs the spec rejects (error agreement checked).")
     ctx.cov["trusted_base"] = ["harness renderer", "harness/enc.go tables", "TLC", "Json module"]
     spec_expr_model(ctx)
-    shards, st = gen_asm(ctx, "asm", ["-mode", "c07", "-shards", 16 if ctx.quick else 64, "-n", 6000 if ctx.quick else 150000, "-variants", 3 if ctx.quick else 4], "c07")
+    shards, st = gen_asm(ctx, "asm", ["-mode", "c07", "-shards", 16 if ctx.quick else 128, "-n", 6000 if ctx.quick else 500000, "-variants", 3 if ctx.quick else 4], "c07")
     rej, nom = validate_asm(ctx, shards, "C07")
     ctx.binding_selftest("AsmTrace", shards, "C07")
     ctx.cov["traces_validated_against_impl"] = st["programs"]
@@ -146,7 +146,7 @@ def check_C06(ctx):
                        "Every SUCCESSFUL result is logged and TLC evaluates WellFormedW (fields < M, entry point inside the code, length <= MAXLENGTH, defined opcodes/modifiers/modes) and, under '88 rules, "
                        "the independently written Legal88 table. Rejected inputs are never compared with anything. distinct_nontrivial = accepted inputs.")
     ctx.cov["trusted_base"] = ["harness/enc.go tables", "TLC", "Json module"]
-    shards, st = gen_asm(ctx, "outs", ["-shards", 16 if ctx.quick else 64, "-n", 20000 if ctx.quick else 400000], "c06")
+    shards, st = gen_asm(ctx, "outs", ["-shards", 16 if ctx.quick else 128, "-n", 20000 if ctx.quick else 2000000], "c06")
     rej, _ = validate_asm(ctx, shards, "C06")
     ctx.binding_selftest("AsmTrace", shards, "C06")
     ctx.cov["traces_validated_against_impl"] = st["inputs"]
@@ -168,7 +168,7 @@ def check_C08(ctx):
                        "unrolling (harness writes every body count times with the counter replaced by 1..count); TLC computes Asm!Meaning(Asm!Unroll(p)) and requires all three results to equal it. "
                        "distinct_nontrivial = programs with a meaning.")
     ctx.cov["trusted_base"] = ["harness renderer and manual unroller (forgen.go)", "TLC", "Json module"]
-    shards, st = gen_asm(ctx, "forasm", ["-shards", 16 if ctx.quick else 64, "-n", 2500 if ctx.quick else 50000], "c08")
+    shards, st = gen_asm(ctx, "forasm", ["-shards", 16 if ctx.quick else 128, "-n", 2500 if ctx.quick else 150000], "c08")
     rej, nom = validate_asm(ctx, shards, "C08")
     ctx.binding_selftest("AsmTrace", shards, "C08")
     ctx.cov["traces_validated_against_impl"] = st["programs"]
@@ -396,7 +396,7 @@ def check_C09(ctx):
                        "missing final newline, and combinations); each text is read by ParseLoadFile AND CompileWarrior and TLC requires every result to be exactly W (implied modifiers under '88). "
                        "distinct_nontrivial = perturbed texts read.")
     ctx.cov["trusted_base"] = ["canonical printer and perturbations (harness/tools.go)", "harness/enc.go tables", "TLC"]
-    shards, st = gen_asm(ctx, "loadrt", ["-shards", 16 if ctx.quick else 64, "-n", 3000 if ctx.quick else 60000], "c09")
+    shards, st = gen_asm(ctx, "loadrt", ["-shards", 16 if ctx.quick else 128, "-n", 3000 if ctx.quick else 400000], "c09")
     rej, nom = validate_asm(ctx, shards, "C09", module="ToolTrace")
     ctx.binding_selftest("ToolTrace", shards, "C09")
     ctx.cov["traces_validated_against_impl"] = st["warriors"]
@@ -415,7 +415,7 @@ def check_C10(ctx):
                        "A generic tokenizer logs the line structure; TLC checks on each recorded read: no panic; a successful read is well-formed, legal under '88, and has exactly one instruction per "
                        "effective non-directive line before the end marker (nothing skipped silently). No predicted acceptance is compared. distinct_nontrivial = accepted texts.")
     ctx.cov["trusted_base"] = ["generic line tokenizer (harness/tools.go lineStructure)", "harness/enc.go tables", "TLC"]
-    shards, st = gen_asm(ctx, "loadcorrupt", ["-shards", 16 if ctx.quick else 64, "-n", 4000 if ctx.quick else 100000], "c10")
+    shards, st = gen_asm(ctx, "loadcorrupt", ["-shards", 16 if ctx.quick else 128, "-n", 4000 if ctx.quick else 400000], "c10")
     rej, _ = validate_asm(ctx, shards, "C10", module="ToolTrace")
     ctx.binding_selftest("ToolTrace", shards, "C10")
     ctx.cov["traces_validated_against_impl"] = st["texts"]
@@ -434,7 +434,7 @@ def check_C16(ctx):
     ctx.cov["trusted_base"] = ["generic listing tokenizer (harness/tools.go)", "TLC"]
     r = ctx.tlc("MC_Listing", cfg="MC_Listing.cfg" if ctx.quick else "MC_Listing_thorough.cfg", workers=NCPU, timeout=3000, heap="16g")
     ctx.notes["spec_model"] = "MC_Listing: %d states, RoundTrip holds" % r["distinct"]
-    shards, st = gen_asm(ctx, "listing", ["-shards", 16 if ctx.quick else 64, "-n", 3000 if ctx.quick else 80000], "c16")
+    shards, st = gen_asm(ctx, "listing", ["-shards", 16 if ctx.quick else 128, "-n", 3000 if ctx.quick else 400000], "c16")
     rej, nom = validate_asm(ctx, shards, "C16", module="ToolTrace")
     ctx.binding_selftest("ToolTrace", shards, "C16")
     ctx.cov["traces_validated_against_impl"] = st["warriors"]
